@@ -18,7 +18,10 @@ MANIFEST = {
             "C14_reassembly_prefix (the same after every prefix of the stream), C14_chunking_unobservable (= Spec stream_parse of the "
             "concatenated bytes), C14_raw (raw receiver: every non-empty chunk unmodified, in order), C14_safe / C14_never_fails (the repaired code on "
             "EVERY input -- arbitrary bytes, arbitrary chunking: never an out-of-bounds read of the data, never a failed assert, always "
-            "terminates within fuel 2*count+2; invariant of the reachable states). The theorems are about Model/Conn.v, "
+            "terminates within fuel 2*count+2; invariant of the reachable states). The __arm__ configuration (fixed 512 byte buffer, uint16 "
+            "count, exceed flag; Model/ConnArm.v) is a second model: C14_reassembly_arm (all streams whose messages are <= the largest message "
+            "size, chunks <= FRAGMENT_BUF_SIZE - largest + 1, for every announced LargestMessageSize), C14_safe_arm (the repaired __arm__ code "
+            "on every input), C14_reassembly_arm_chunk_bound_refuted (the chunk bound is forced: K-C14-3). The theorems are about Model/Conn.v, "
             "a function-by-function model of the non-__arm__ branch of IConnection.cpp with explicit uint32 wrap-around, explicit "
             "out-of-bounds / assert / non-termination outcomes, and the header layout regenerated from MsgHeader.h (Gen/CxxConn.v).",
     "note": "Trusted: Coq 8.16.1 kernel; no axioms; translator/cxxconn.py (header layout, parameter widths, preamble byte order, function "
@@ -36,7 +39,9 @@ RULE = ("(a) exhaustive: every single-message stream with a payload of <= 2 (qui
         "(c) random well-formed streams (0..6 messages, payload 0..40 or up to 70000 bytes, payload bytes biased to the preamble bytes, "
         "fillers free of p0, random preambles incl. equal bytes and zero bytes) under random chunkings incl. empty chunks: model vs code "
         "and code vs message list vs Spec stream_parse; (d) malformed streams (garbage, lone p0, lying/truncated headers): model vs code; "
-        "(e) raw receiver: chunks vs deliveries. A case = one (preamble, chunk list); distinct = distinct (preamble, chunk list); "
+        "(e) raw receiver: chunks vs deliveries; (f) the same probe built with -D__arm__: random LargestMessageSize (0..65556), well-formed "
+        "streams inside the domain of C14_reassembly_arm (deliveries = messages), well-formed streams of any size and malformed streams "
+        "under any chunking: model vs code on status, count, exceed flag, required, deliveries and the WHOLE fixed buffer; no sanitizer report. A case = one (preamble, chunk list); distinct = distinct (preamble, chunk list); "
         "non-trivial = at least one message delivered or at least one byte left pending / skipped")
 ASSUMPTIONS = [
     "C14_reassembly: every message has header + payload < 2^32 bytes (OnMessageReceived takes a uint32 count; the repaired code discards "
@@ -44,7 +49,9 @@ ASSUMPTIONS = [
     "every chunk: length + 8 <= 2^32 (count is a uint32 and uint32 totalFragmentedByteCount = count + pending bytes must not wrap)",
     "fillers between messages do not contain the preamble's first byte (as in the property statement)",
     "a message receiver is installed before the first byte arrives and the preamble does not change in between",
-    "non-__arm__ build (std::vector fragment buffer); the __arm__ branch with its fixed 512-byte buffer is not modelled",
+    "C14_reassembly_arm (__arm__ build): every message <= min(LargestMessageSize(), FRAGMENT_BUF_SIZE) bytes and every chunk <= "
+    "FRAGMENT_BUF_SIZE - that + 1 bytes (K-C14-3 otherwise); the __arm__ branch needs printf and DEBUG_CODE from the build "
+    "(harness/stubs/arm_prelude.h), on x86 -D__arm__ only selects the branch; the fixed buffer is zeroed by the probe (the class leaves it uninitialised)",
 ]
 TRUSTED = [
     "Coq 8.16.1 kernel (coqc, full .vo build; vm_compute; coqchk in the thorough tier)",
